@@ -11,7 +11,15 @@ func init() {
 		{Name: "broken-uploads-every-offset", Weight: 1, Gen: GenC02Exhaustive},
 		{Name: "overlap", Weight: 4, Gen: GenC02Overlap},
 	}
-	Profiles["C03"] = []Profile{{Name: "hostile-paths", Weight: 1, Gen: GenC03}}
+	Profiles["C03"] = []Profile{
+		{Name: "hostile-paths", Weight: 7, Gen: GenC03},
+		// "reads, creates, modifies and deletes nothing outside" also when a disk
+		// call fails, an upload breaks or requests overlap: the fall-back and
+		// clean-up paths are where a library reaches for os.TempDir or a raw path
+		{Name: "disk-faults", Weight: 2, Gen: GenC02Disk},
+		{Name: "broken-uploads", Weight: 1, Gen: GenC02Broken},
+		{Name: "overlap", Weight: 1, Gen: GenC02Overlap},
+	}
 	Profiles["C04"] = []Profile{{Name: "conditional", Weight: 6, Gen: GenC04}, {Name: "dav-passthrough", Weight: 1, Gen: GenC04Passthrough}, {Name: "conditional-memfs", Weight: 3, Gen: GenC04Memfs}}
 	Profiles["C14"] = []Profile{{Name: "client-faults", Weight: 10, Gen: GenC14}, {Name: "client-every-offset-and-status", Weight: 1, Gen: GenC14Exhaustive}}
 	Profiles["C13"] = []Profile{{Name: "dav-server-faults", Weight: 8, Gen: GenC13}, {Name: "dav-every-offset", Weight: 1, Gen: GenC13Exhaustive}, {Name: "overlap", Weight: 1, Gen: GenC02Overlap}}
